@@ -62,6 +62,23 @@ fn clause_pool(rng: &mut Rng, corpus: &Corpus, n: usize) -> Vec<String> {
             pool.push(format!("she left {} {} saying it", w[..at].iter().collect::<String>(), w[at..].iter().collect::<String>()));
         }
     }
+    // names from the rule data files in the wrong capitalisation (rules whose rows can shadow one another), and words
+    // far from every dictionary entry next to ordinary misspellings (the spell checker widens its search for the former)
+    for _ in 0..6 {
+        if !corpus.phrases.is_empty() {
+            let p = rng.pick(&corpus.phrases).to_lowercase();
+            pool.push(match rng.below(3) {
+                0 => format!("we used the {p} today"),
+                1 => format!("{p} and more"),
+                _ => p,
+            });
+        }
+    }
+    for f in ["Zxqvjkwpfhgmt is far", "qqqqxxxxzzzzjjjj", "tommorow we recieve it", "a neccessary and succesful definately", "Definately accomodate the arguement", "enviroment of the documnet"] {
+        if rng.chance(1, 2) {
+            pool.push(f.to_string());
+        }
+    }
     for f in ["ie, the usual", "eg, this one", "ie", "etc", "vs the rest", "al fresco", "st street", "am here"] {
         pool.push(f.to_string());
     }
